@@ -111,6 +111,14 @@ class Shape:
                 return self.of(e.args[0], depth + 1) + self.of(e.args[1], depth + 1)
             if f in ('np.array',) and e.args:
                 return self.of(e.args[0], depth + 1)
+            if isinstance(e.func, ast.Name) and e.func.id in self.m.functions:
+                # a helper of the same module: the shape of what it returns (all return paths must agree)
+                callee = self.m.functions[e.func.id]
+                sub_ = Shape(self.m, callee, self.repo)
+                shapes = [sub_.of(r_.value, depth + 1) for r_ in returns_of(callee)
+                          if not isinstance(r_.value, ast.Tuple)]
+                if shapes and all(s_ == shapes[0] for s_ in shapes):
+                    return shapes[0]
             raise Unsupported('shape of call %s' % f, e, self.m.relpath)
         if isinstance(e, (ast.List, ast.Tuple)):
             out = []
@@ -165,10 +173,16 @@ class Shape:
                     return shapes[0]
             if value.func.id == 'curve_fit' and idx == 0:
                 lam = value.args[0] if value.args else None
+                if isinstance(lam, ast.Lambda):
+                    return ['f%d' % i for i in range(len(lam.args.args) - 1)]
                 if isinstance(lam, ast.Name):
                     for st, _ in self.defs(lam.id, value):
                         if isinstance(st.value, ast.Lambda):
                             return ['f%d' % i for i in range(len(st.value.args.args) - 1)]
+                    # a nested def or a module-level function fitted directly
+                    for d_ in list(ast.walk(self.fn)) + list(self.m.functions.values()):
+                        if isinstance(d_, ast.FunctionDef) and d_.name == lam.id and d_ is not self.fn:
+                            return ['f%d' % i for i in range(len(d_.args.args) - 1)]
         raise Unsupported('shape of tuple element', value, self.m.relpath)
 
 
